@@ -139,6 +139,16 @@ CLAIMED = {
         note="In-memory descriptor only (XML excluded); spherical/index routing only in thorough shapes.",
         technique="symbolic execution of rustc MIR into SMT (z3) + bounded model checking (Kani)",
         ref="§6 C14"),
+    "C05": dict(
+        engine="mirsym",
+        text="Symbolic execution of the real MIR of the simple reader's per-point functions: the four conversion functions for every validity combination with all float components symbolic "
+             "(documented formulas bit-exactly, trigonometric functions uninterpreted; historical atan2-argument swap is caught and replayed natively), quaternion -> rotation matrix, and pop_point "
+             "for four attribute sets with any raw values (validity from the invalid-state attribute, failure exactly outside the documented set, scaled integers, absent-when-flagged, row/column defaults, "
+             "normalisation switches).",
+        note="Iterator::next bookkeeping (count/order equal to the raw iterator, switches per batch) is NOT covered. Division inside normalisation is uninterpreted here (value properties: C13). "
+             "pop_point counterexamples are not replayed natively yet (reported inconclusive).",
+        technique="symbolic execution of rustc MIR into SMT (z3) with uninterpreted libm functions",
+        ref="§6 C05"),
 }
 
 NOT_APPLICABLE = {
